@@ -143,7 +143,7 @@ func corrC01(r *Run) {
 	n := r.N(30, 800)
 	caseBudget := r.N(330, 6000)
 	bigBudget := r.N(14, 400) // frames of several KiB are slow to parse inside coqc: a fixed number per run
-	vol := &pduVolume{}
+	vol := &pduVolume{maxLen: 2500}
 	defer vol.diff(r)
 	volPerType := r.N(120, 2500) // further values per type, for the direct tests and the extracted model only
 	for _, t := range ts {
